@@ -115,6 +115,34 @@ Theorem C01_single_round_without_remake_flags :
 Proof. exact single_round_without_remake_flags. Qed.
 Print Assumptions C01_single_round_without_remake_flags.
 
+(* Later rounds: the re-use branch of makeAllPages never indexes a page that the
+   previous round does not have (pages[i], site 1021) -- by the test `i >= len(pages)`
+   added to /repo (8f.. see notes); the loop of the unchanged tree took such a page for
+   up to date when the page before it was made again and reported footnotes with
+   nothing left to resume, and indexed pageMaker out of range. *)
+Theorem C01_reuse_index_in_range :
+  forall (R : Type) (R_eqb : R -> R -> bool)
+         (layout_content : option R -> nat -> (option R * brk * nat) * (bool * bool))
+         (layout_blank : nat -> nat * (bool * bool)) (state_changed : nat -> bool)
+         fuel pm old fn i out,
+    make_all_pages R R_eqb layout_content layout_blank state_changed fuel pm old fn i out <> Panic 1021.
+Proof. exact reuse_index_in_range. Qed.
+Print Assumptions C01_reuse_index_in_range.
+
+Theorem C01_later_round_orig_refuted :
+  make_all_pages_orig nat Nat.eqb page2_reports_footnote
+    (blank_of_report_loop true (fun _ _ => false) (fun _ => (false, false))) (fun _ => false)
+    50 second_round_pm 2 0 0 [] = Panic 1019.
+Proof. exact later_round_orig_panics. Qed.
+Print Assumptions C01_later_round_orig_refuted.
+
+Example C01_later_round_fixed_returns :
+  fmap_pages (make_all_pages nat Nat.eqb page2_reports_footnote
+    (blank_of_report_loop true (fun _ _ => false) (fun _ => (false, false))) (fun _ => false)
+    50 second_round_pm 2 0 0 [])
+  = Some [PContent; PContent; PBlank].
+Proof. exact later_round_fixed_returns. Qed.
+
 (* Full statement for the later rounds (pages re-used when up to date): kept
    visible; proved for the first round (C01_page_loop_terminates) and for documents
    that never set a re-make flag (C01_single_round_without_remake_flags). *)
